@@ -6,4 +6,5 @@ CONSTANTS Kinds = {}
   Damages = {}
   EOF_IS_BROKEN = FALSE
   TRIM_TWICE = TRUE
+  USED_HOISTED = FALSE
 CHECK_DEADLOCK FALSE
